@@ -43,6 +43,7 @@ const (
 // See https://github.com/nhooyr/websocket/issues/242#issuecomment-633182220
 type Conn struct {
 	noCopy noCopy
+	v      verifState
 
 	subprotocol    string
 	rwc            io.ReadWriteCloser
@@ -133,6 +134,7 @@ func newConn(cfg connConfig) *Conn {
 		c.close()
 	})
 
+	c.vInit()
 	go c.timeoutLoop()
 
 	return c
@@ -147,25 +149,33 @@ func (c *Conn) Subprotocol() string {
 func (c *Conn) close() error {
 	c.closeMu.Lock()
 	defer c.closeMu.Unlock()
+	c.vEv("CloseEnter", 0, 0, 0, 0)
 
 	if c.isClosed() {
+		c.vEv("CloseAlready", 0, 0, 0, 0)
 		return net.ErrClosed
 	}
 	runtime.SetFinalizer(c, nil)
+	c.vEv("ClosedPre", 0, 0, 0, 0)
 	close(c.closed)
+	c.vEv("ClosedPost", 0, 0, 0, 0)
 
 	// Have to close after c.closed is closed to ensure any goroutine that wakes up
 	// from the connection being closed also sees that c.closed is closed and returns
 	// closeErr.
 	err := c.rwc.Close()
+	c.vEv("RwcClosed", 0, 0, 0, 0)
 	// With the close of rwc, these become safe to close.
 	c.msgWriter.close()
 	c.msgReader.close()
+	c.vEv("CloseExit", 0, 0, 0, 0)
 	return err
 }
 
 func (c *Conn) timeoutLoop() {
 	defer close(c.timeoutLoopDone)
+	defer c.vEv("TLExit", 0, 0, 0, 0)
+	c.vEv("TLStart", 0, 0, 0, 0)
 
 	readCtx := context.Background()
 	writeCtx := context.Background()
@@ -176,12 +186,16 @@ func (c *Conn) timeoutLoop() {
 			return
 
 		case writeCtx = <-c.writeTimeout:
+			c.vEv("TLArmW", vCtxID(writeCtx), 0, 0, 0)
 		case readCtx = <-c.readTimeout:
+			c.vEv("TLArmR", vCtxID(readCtx), 0, 0, 0)
 
 		case <-readCtx.Done():
+			c.vEv("TLFireR", vCtxID(readCtx), 0, 0, 0)
 			c.close()
 			return
 		case <-writeCtx.Done():
+			c.vEv("TLFireW", vCtxID(writeCtx), 0, 0, 0)
 			c.close()
 			return
 		}
@@ -214,11 +228,13 @@ func (c *Conn) ping(ctx context.Context, p string) error {
 
 	c.activePingsMu.Lock()
 	c.activePings[p] = pong
+	c.vEvS("PingReg", p, vCtxID(ctx))
 	c.activePingsMu.Unlock()
 
 	defer func() {
 		c.activePingsMu.Lock()
 		delete(c.activePings, p)
+		c.vEvS("PingUnreg", p, 0)
 		c.activePingsMu.Unlock()
 	}()
 
@@ -229,10 +245,13 @@ func (c *Conn) ping(ctx context.Context, p string) error {
 
 	select {
 	case <-c.closed:
+		c.vEvS("PingResClosed", p, 0)
 		return net.ErrClosed
 	case <-ctx.Done():
+		c.vEvS("PingResCtx", p, 0)
 		return fmt.Errorf("failed to wait for pong: %w", ctx.Err())
 	case <-pong:
+		c.vEvS("PingResPong", p, 0)
 		return nil
 	}
 }
@@ -250,23 +269,30 @@ func newMu(c *Conn) *mu {
 }
 
 func (m *mu) forceLock() {
+	m.vEv("ForceLockBegin", 0)
 	m.ch <- struct{}{}
+	m.vEv("ForceLock", 0)
 }
 
 func (m *mu) tryLock() bool {
 	select {
 	case m.ch <- struct{}{}:
+		m.vEv("TryLockOK", 0)
 		return true
 	default:
+		m.vEv("TryLockFail", 0)
 		return false
 	}
 }
 
 func (m *mu) lock(ctx context.Context) error {
+	m.vEv("LockBegin", vCtxID(ctx))
 	select {
 	case <-m.c.closed:
+		m.vEv("LockFailClosed", 0)
 		return net.ErrClosed
 	case <-ctx.Done():
+		m.vEv("LockFailCtx", vCtxID(ctx))
 		return fmt.Errorf("failed to acquire lock: %w", ctx.Err())
 	case m.ch <- struct{}{}:
 		// To make sure the connection is certainly alive.
@@ -274,16 +300,19 @@ func (m *mu) lock(ctx context.Context) error {
 		// over the receive on closed.
 		select {
 		case <-m.c.closed:
+			m.vEv("LockAcqSawClosed", 0)
 			// Make sure to release.
 			m.unlock()
 			return net.ErrClosed
 		default:
 		}
+		m.vEv("LockOK", 0)
 		return nil
 	}
 }
 
 func (m *mu) unlock() {
+	m.vEv("UnlockPre", 0)
 	select {
 	case <-m.ch:
 	default:
